@@ -326,6 +326,19 @@ func RunC18(args []string) *rep.Report {
 			}
 			ob := readReq(rc.Case.Read, data, kt)
 			execs++
+			// reading is a function of the bytes: the same bytes read again (and once more after another request was read)
+			// give the same verdict
+			for again := 0; again < 2; again++ {
+				if ob2 := readReq(rc.Case.Read, data, kt); ob2 != ob {
+					execs++
+					r.Diverge(rep.Divergence{Key: "verdict-changes-on-reread", Case: rc, Expected: ob, Observed: ob2,
+						Detail: fmt.Sprintf("key type %s: read %d of the same bytes gave another verdict", kt, again+2)})
+					break
+				}
+				if honest, err := makeReq(rc.Case.Read, "Q", "c2", "Q", kt); err == nil {
+					readReq(rc.Case.Read, honest, kt)
+				}
+			}
 			key := ""
 			switch {
 			case ob.Panic != "":
